@@ -407,7 +407,109 @@ func c08Contracts() c08Result {
 			}
 		}
 	}
+	// two Tokenized (or other) outputs in one tx, contract subscription on: relevant iff one of them is contract wide
+	var names []string
+	for n := range scripts {
+		names = append(names, n)
+	}
+	sort.Strings(names)
+	for _, a := range names {
+		for _, b := range names {
+			node := c08NewNode()
+			node.SubscribeContracts(ctx)
+			tx := placeScript(scripts[a], 0)
+			tx.TxOut[1].LockingScript = scripts[b]
+			res.Evals++
+			res.Distinct++
+			want := wantRel[a] || wantRel[b]
+			var got bool
+			pv := guard(func() { got = node.IsRelevant(ctx, tx) })
+			if pv != nil || got != want {
+				res.Violations = append(res.Violations, core.Violation{Property: "C08", Clause: "contract-actions", Class: fmt.Sprintf("two action outputs: got %v want %v", got, want),
+					Detail: fmt.Sprintf("outputs [%s, %s] with contract subscription on: relevant=%v want %v panic=%v", a, b, got, want, pv), Witness: map[string]interface{}{"actions": []string{a, b}}})
+			}
+		}
+	}
 	res.Sample = map[string]interface{}{"actions": len(scripts)}
+	return res
+}
+
+// c08Pairs: two scripts of interest in two different positions of one tx (the scan of one script must
+// not influence the scan of another): every ordered pair over a set of matching, non-matching and
+// malformed scripts x every pair of positions.
+func c08Pairs() c08Result {
+	var res c08Result
+	ctx := core.Ctx()
+	node := c08NewNode()
+	sub := &c08Sub{counts: map[[20]byte]int{}}
+	node.SubscribePushDatas(ctx, [][]byte{c08U.direct[:], c08U.raw})
+	sub.counts[c08U.direct]++
+	sub.counts[c08U.rawHash]++
+	set := map[string][]byte{
+		"match direct":        append([]byte{20}, c08U.direct[:]...),
+		"match raw (hashed)":  append([]byte{byte(len(c08U.raw))}, c08U.raw...),
+		"p2pkh match":         append(append([]byte{0x76, 0xa9, 20}, c08U.direct[:]...), 0x88, 0xac),
+		"benign p2pkh":        {0x76, 0xa9, 0x14, 9, 9, 9, 9, 9, 9, 9, 9, 9, 9, 9, 9, 9, 9, 9, 9, 9, 9, 9, 9, 0x88, 0xac},
+		"empty":               {},
+		"op_return data":      {0x6a, 0x04, 't', 'e', 's', 't'},
+		"push past the end":   {0x6a, 0x4b, 1, 2, 3},
+		"half pushdata1":      {0x4c},
+		"half pushdata2 len":  {0x4d, 0x05},
+		"pushdata2 short":     {0x4d, 0x05, 0x00, 1, 2},
+		"pushdata4 huge":      {0x4e, 0xff, 0xff, 0xff, 0xff, 1},
+		"invalid opcode":      {0xff, 0xfe},
+		"match then garbage":  append(append([]byte{20}, c08U.direct[:]...), 0x4d, 0x05),
+		"garbage then match":  append([]byte{0x4d, 0x05}, append([]byte{20}, c08U.direct[:]...)...),
+	}
+	var names []string
+	for n := range set {
+		names = append(names, n)
+	}
+	sort.Strings(names)
+	viol := map[string]bool{}
+	pos := []string{"output 0", "output 1", "input 0", "input 1"}
+	for _, a := range names {
+		for _, b := range names {
+			for p1 := 0; p1 < 4; p1++ {
+				for p2 := 0; p2 < 4; p2++ {
+					if p1 == p2 {
+						continue
+					}
+					tx := placeScript(set[a], p1)
+					if p2 < 2 {
+						tx.TxOut[p2].LockingScript = set[b]
+					} else {
+						tx.TxIn[p2-2].UnlockingScript = set[b]
+					}
+					res.Evals++
+					res.Distinct++
+					want := sub.refRelevant([][]byte{set[a]}) || sub.refRelevant([][]byte{set[b]})
+					var got bool
+					pv := guard(func() { got = node.IsRelevant(ctx, tx) })
+					cls := ""
+					switch {
+					case pv != nil:
+						cls = "filter panics"
+					case got && !want:
+						cls = "false positive"
+					case !got && want:
+						cls = "false negative"
+					}
+					if cls == "" {
+						continue
+					}
+					class := cls + " with two scripts of interest in one tx"
+					if !viol[class] {
+						viol[class] = true
+						res.Violations = append(res.Violations, core.Violation{Property: "C08", Clause: "filter-exact", Class: class,
+							Detail:  fmt.Sprintf("%q in %s and %q in %s: IsRelevant=%v want %v (panic: %v)", a, pos[p1], b, pos[p2], got, want, pv),
+							Witness: map[string]interface{}{"a": a, "b": b, "p1": p1, "p2": p2}})
+					}
+				}
+			}
+		}
+	}
+	res.Sample = map[string]interface{}{"script_pairs": len(names) * len(names) * 12}
 	return res
 }
 
@@ -422,6 +524,8 @@ func init() {
 			return c08Subs(t.Depth), nil
 		case "contracts":
 			return c08Contracts(), nil
+		case "pairs":
+			return c08Pairs(), nil
 		}
 		return c08Scripts(t), nil
 	})
@@ -439,7 +543,7 @@ func runC08() int {
 	for i := range c08Tokens() {
 		tasks = append(tasks, c08Task{First: i, Depth: depth, Mode: "scripts"})
 	}
-	tasks = append(tasks, c08Task{Depth: subDepth, Mode: "subs"}, c08Task{Mode: "contracts"})
+	tasks = append(tasks, c08Task{Depth: subDepth, Mode: "subs"}, c08Task{Mode: "contracts"}, c08Task{Mode: "pairs"})
 	evals, distinct := 0, 0
 	pool.Map("c08", tasks, func(i int, r core.TaskResult) {
 		if r.Died != "" || r.Err != "" {
@@ -461,7 +565,7 @@ func runC08() int {
 	rep.Coverage["states"] = distinct
 	rep.Coverage["transitions"] = evals
 	rep.Coverage["traces_validated_against_impl"] = evals
-	rep.Coverage["rule"] = fmt.Sprintf("bounded-exhaustive: every sequence of <= %d script tokens from a 26-token alphabet (direct pushes of length 0/1/6/19/20/21/33/75, PUSHDATA1 0/20/33/76/255, PUSHDATA2 20/256, PUSHDATA4 20 and 2^32-1, OP_DUP, OP_RETURN, OP_CHECKSIG, 0xff, OP_1, OP_16, OP_1NEGATE; payloads: subscribed 20-byte value, raw data subscribed via hash, its hash, unsubscribed values) plus EVERY byte prefix of each script, placed in output 0/1 and input 0/1, on the real Node.IsRelevant vs an independent tokenizer; every subscribe/unsubscribe sequence <= %d over {raw, its hash, direct, short raw, its hash} - single entries and batches of two or three entries per call - vs a multiset; contract flag x {ContractFormation, InstrumentCreation, Transfer, ContractOffer, non-protocol, truncated}. distinct = distinct scripts / subscription sequences", depth, subDepth)
+	rep.Coverage["rule"] = fmt.Sprintf("bounded-exhaustive: every sequence of <= %d script tokens from a 26-token alphabet (direct pushes of length 0/1/6/19/20/21/33/75, PUSHDATA1 0/20/33/76/255, PUSHDATA2 20/256, PUSHDATA4 20 and 2^32-1, OP_DUP, OP_RETURN, OP_CHECKSIG, 0xff, OP_1, OP_16, OP_1NEGATE; payloads: subscribed 20-byte value, raw data subscribed via hash, its hash, unsubscribed values) plus EVERY byte prefix of each script, placed in output 0/1 and input 0/1, on the real Node.IsRelevant vs an independent tokenizer; every subscribe/unsubscribe sequence <= %d over {raw, its hash, direct, short raw, its hash} - single entries and batches of two or three entries per call - vs a multiset; contract flag x {ContractFormation, InstrumentCreation, Transfer, ContractOffer, non-protocol, truncated} alone and in every ordered pair of outputs; every ordered pair of 14 scripts of interest (matching, benign, six malformed shapes, match before/after garbage) in every pair of positions. distinct = distinct scripts / subscription sequences", depth, subDepth)
 	rep.Assumptions = []string{"OP_1..OP_16/OP_1NEGATE are treated as one-byte pushes by both sides (no subscription matches them in the universe)"}
 	return rep.Finish()
 }
